@@ -10,6 +10,7 @@ import (
 	"testing"
 	"time"
 
+	context2 "github.com/oneconcern/datamon/pkg/context"
 	"github.com/oneconcern/datamon/pkg/core"
 	"github.com/oneconcern/datamon/pkg/model"
 
@@ -31,6 +32,9 @@ type params struct {
 	ZeroFile bool   `json:"zero_file_bundle"`
 	Big      bool   `json:"bundle_with_1001_files"`
 	Seed     int64  `json:"seed"`
+	// Fault in (0,1]: one store call of the operation (at that fraction of its calls, counted by a dry run on a clone)
+	// fails; the operation continues along its error path
+	Fault float64 `json:"fault_at_fraction,omitempty"`
 }
 
 var repoNames = []string{"a", "ab", "a-b", "b"}
@@ -55,6 +59,15 @@ func gen09(seed int64, tier string) []drv.Case {
 	m := 48
 	if tier == "thorough" {
 		m = 1100
+	}
+	nf := 24
+	if tier == "thorough" {
+		nf = 600
+	}
+	for i := 0; i < nf; i++ {
+		op := []string{"rename", "delete", "delete-files", "rename"}[i%4]
+		cs = append(cs, drv.Case{ID: fmt.Sprintf("%s-fault-%d", op, len(cs)), Class: op + "-fault", Params: drv.MustJSON(params{Op: op, DelNil: r.Intn(2) == 0,
+			Target: repoNames[r.Intn(len(repoNames))], Seed: r.Int63(), Fault: (float64(i/4%6) + r.Float64()) / 6.0})})
 	}
 	for i := 0; i < m; i++ {
 		op := []string{"delete", "rename", "delete-files"}[i%3]
@@ -270,12 +283,35 @@ func run09(c drv.Case, res *drv.Result) {
 	var opErr error
 	affected := map[string]bool{target: true}
 	var delPaths []string
+	faultDesc := ""
+	run := func(f func(st context2.Stores) error) error {
+		if p.Fault > 0 {
+			dry := env.Clone()
+			da := memstore.NewActor("dry")
+			if err := f(dry.Stores(da)); err == nil {
+				n, _ := da.Calls()
+				k := 1 + int(p.Fault*float64(n))
+				if k > n {
+					k = n
+				}
+				actor.SetFault(func(c memstore.Call) error {
+					if c.Index == k {
+						faultDesc = fmt.Sprintf("store call %d of %d (%s.%s %s) fails", k, n, c.Store, c.Op, c.Key)
+						res.Seen("faulted_call_kinds", c.Store+"."+c.Op)
+						return memstore.ErrInjected
+					}
+					return nil
+				})
+			}
+		}
+		return f(st)
+	}
 	switch p.Op {
 	case "delete":
-		opErr = core.DeleteRepo(target, st)
+		opErr = run(func(st context2.Stores) error { return core.DeleteRepo(target, st) })
 	case "rename":
 		affected["renamed"] = true
-		opErr = core.RenameRepo(target, "renamed", st)
+		opErr = run(func(st context2.Stores) error { return core.RenameRepo(target, "renamed", st) })
 	case "delete-files":
 		seen := map[string]bool{}
 		for _, bi := range info[target] {
@@ -318,7 +354,7 @@ func run09(c drv.Case, res *drv.Result) {
 			}
 		}
 		delPaths = append(delPaths, "not/in/any/bundle")
-		opErr = core.DeleteEntriesFromRepo(target, st, delPaths)
+		opErr = run(func(st context2.Stores) error { return core.DeleteEntriesFromRepo(target, st, delPaths) })
 	}
 	calls, _ := actor.Calls()
 	res.Stat("store_calls_of_operations", int64(calls))
@@ -327,9 +363,63 @@ func run09(c drv.Case, res *drv.Result) {
 		res.Violate("operation-does-not-terminate", p.Op+"|"+cfg, "%s(%s) issued more than %d store calls on a context of %d objects (aborted by the store-call budget); error returned: %v", p.Op, target, 50*len(before)+10000, len(before), opErr)
 		return
 	}
+	if opErr != nil && faultDesc != "" {
+		// the operation reported the failure: nothing outside its repository may have changed, and no bundle may be lost
+		res.Stat("operations_failing_on_injected_fault", 1)
+		after := snap(env)
+		for k, v := range before {
+			if affected[owner(k)] {
+				continue
+			}
+			if nv, ok := after[k]; !ok || !bytes.Equal(v, nv) {
+				res.Violate("foreign-object-changed-by-failed-operation", p.Op, "%s(%s) failed (%s) and changed or removed %s, which does not belong to %s", p.Op, target, faultDesc, k, target)
+				return
+			}
+		}
+		if p.Op == "rename" || p.Op == "delete-files" {
+			rm := map[string]bool{}
+			for _, d := range delPaths {
+				rm[d] = true
+			}
+			for _, bi := range info[target] {
+				okSomewhere := false
+				for _, name := range []string{target, "renamed"} {
+					_, ents, err := env.Entries(nil, name, bi.id)
+					if err != nil {
+						continue
+					}
+					good := true
+					got := map[string]bool{}
+					for _, e := range ents {
+						got[e.NameWithPath] = true
+						if h, in := bi.entries[e.NameWithPath]; !in || h != e.Hash {
+							good = false
+						}
+					}
+					for pth := range bi.entries {
+						if !got[pth] && !rm[pth] {
+							good = false
+						}
+					}
+					if good {
+						okSomewhere = true
+					}
+				}
+				if !okSomewhere {
+					res.Violate("bundle-lost-by-failed-operation", p.Op, "%s(%s) failed (%s: %v) and bundle %s is readable neither under %s nor under the new name", p.Op, target, faultDesc, opErr, bi.id, target)
+					return
+				}
+			}
+		}
+		res.Sample = map[string]interface{}{"op": p.Op, "target": target, "fault": faultDesc, "result": fmt.Sprint(opErr)}
+		return
+	}
 	if opErr != nil {
 		res.Violate("operation-failed", p.Op+"|"+cfg, "%s(%s) failed: %v", p.Op, target, opErr)
 		return
+	}
+	if faultDesc != "" {
+		res.Stat("operations_succeeding_despite_fault", 1)
 	}
 	after := snap(env)
 	// ---- store diff: nothing outside the affected repositories changes; blobs untouched
@@ -440,16 +530,26 @@ func run09(c drv.Case, res *drv.Result) {
 		for k := range after {
 			o := owner(k)
 			if o == target && !strings.HasPrefix(k, "vmeta:diamonds/") {
+				if faultDesc != "" {
+					// a store call failed and deletion deliberately ignores errors on single bundle objects: leftovers
+					// are not data loss, the property does not promise a complete clean-up under store faults
+					res.Stat("leftovers_after_faulted_delete", 1)
+					break
+				}
 				res.Violate("repo-object-left-behind", p.Op+"|"+strings.SplitN(strings.SplitN(k, ":", 2)[1], "/", 2)[0], "DeleteRepo(%s) left %s behind", target, k)
 				return
 			}
 		}
-		if core.RepoExists(target, obs) == nil {
+		if core.RepoExists(target, obs) == nil && faultDesc == "" {
 			res.Violate("repo-still-exists", p.Op, "DeleteRepo(%s): the repository still exists", target)
 		}
 	case "rename":
 		for k := range after {
 			if owner(k) == target && !strings.HasPrefix(k, "vmeta:diamonds/") {
+				if faultDesc != "" {
+					res.Stat("leftovers_after_faulted_delete", 1)
+					break
+				}
 				res.Violate("repo-object-left-behind", p.Op, "RenameRepo(%s) left %s behind under the old name", target, k)
 				return
 			}
